@@ -670,7 +670,7 @@ xds_separator(vbi_decoder *vbi, uint8_t *buf)
 		if (!sp)
 			return;
 
-		if (sp->count >= 32 + 2) {
+		if (sp->count + 1 + !!c2 > 32 + 2) {
 			XDS_SEP_DEBUG(printf("XDS packet length overflow, discard %d/0x%02x\n",
 			     	(sp - cc->sub_packet[0]) / elements(cc->sub_packet[0]),
 				(sp - cc->sub_packet[0]) % elements(cc->sub_packet[0])));
@@ -682,7 +682,9 @@ xds_separator(vbi_decoder *vbi, uint8_t *buf)
 		}
 
 		sp->buffer[sp->count - 2] = c1;
-		sp->buffer[sp->count - 1] = c2;
+		/* When count is 33 c2 is the filler of a full packet. */
+		if (sp->count <= 32)
+			sp->buffer[sp->count - 1] = c2;
 		sp->chksum += c1 + c2;
 		sp->count += 1 + !!c2;
 
